@@ -37,17 +37,33 @@ func (e *Engine) genPattern(t *rapid.T) string {
 func (e *Engine) genWrite(t *rapid.T) Op {
 	m := gen.Pick(t, e.Cfg.Methods, "method")
 	k := gen.IntR(t, 0, 99, "wkind")
+	// deletes and updates mostly aim at a key that exists (in the state the write will see)
+	pickKey := func(pct int) (string, string) {
+		ks := e.current().Keys()
+		if len(ks) > 0 && gen.Chance(t, pct, 100, "existing") {
+			k := gen.Pick(t, ks, "key")
+			return k.M, k.P
+		}
+		return m, e.genPattern(t)
+	}
 	switch {
 	case k < 40:
-		return Op{Kind: "handle", Method: m, Pattern: e.genPattern(t), TS: gen.Pick(t, tsChoices, "ts")}
+		mm, p := pickKey(8)
+		if gen.Chance(t, 1, 12, "conflicting") {
+			p = gen.Rename(p)
+		}
+		return Op{Kind: "handle", Method: mm, Pattern: p, TS: gen.Pick(t, tsChoices, "ts")}
 	case k < 46:
 		return Op{Kind: "handleRoute", Method: m, Pattern: e.genPattern(t)}
 	case k < 58:
-		return Op{Kind: "update", Method: m, Pattern: e.genPattern(t), TS: gen.Pick(t, tsChoices, "ts")}
+		mm, p := pickKey(60)
+		return Op{Kind: "update", Method: mm, Pattern: p, TS: gen.Pick(t, tsChoices, "ts")}
 	case k < 62:
-		return Op{Kind: "updateRoute", Method: m, Pattern: e.genPattern(t)}
+		mm, p := pickKey(60)
+		return Op{Kind: "updateRoute", Method: mm, Pattern: p}
 	case k < 95:
-		return Op{Kind: "delete", Method: m, Pattern: e.genPattern(t)}
+		mm, p := pickKey(65)
+		return Op{Kind: "delete", Method: mm, Pattern: p}
 	default:
 		n := gen.IntR(t, 0, 2, "ntrunc")
 		var ms []string
